@@ -86,42 +86,20 @@ Print Assumptions C26_xml_control_char_refuted.
 
 (* every element and attribute emitted is allowed by cppcheck-errors.rng (tables
    regenerated from the file on every run), every required one is present, the severity
-   is one of the listed values, children are location* symbol* -- for every finding that
-   uses none of: guideline, classification, remark, origfile, severities debug/none/internal *)
-Theorem C26_xml_conforms_rng_partial m :
-  rng_plain m -> error_conforms rng_schema_gen (error_tree m) = true.
-Proof. exact (xml_conforms_rng_plain m). Qed.
-Print Assumptions C26_xml_conforms_rng_partial.
+   is one of the listed values, children are location* symbol* -- for every finding whose
+   severity can reach toXML (not none / internal), with or without guideline,
+   classification, remark, origfile, cwe, hash, inconclusive, file0, info *)
+Theorem C26_xml_conforms_rng m :
+  reportable m -> error_conforms rng_schema_gen (error_tree m) = true.
+Proof. exact (xml_conforms_rng m). Qed.
+Print Assumptions C26_xml_conforms_rng.
 
-Definition w_plain : msg := mkMsg (L "id") [] [] SStyle 563 0 false (L "m") (L "m") [] (L "a.c") (L "x") [mkLoc (L "a.c") (L "a.c") 1 1 []].
-Definition with_remark (m : msg) : msg :=
-  mkMsg (m_id m) (m_guideline m) (m_classification m) (m_sev m) (m_cwe m) (m_hash m) (m_inconclusive m)
-        (m_short m) (m_verbose m) (L "r") (m_file0 m) (m_symbols m) (m_stack m).
-Definition with_sev (s : sev) (m : msg) : msg :=
-  mkMsg (m_id m) (m_guideline m) (m_classification m) s (m_cwe m) (m_hash m) (m_inconclusive m)
-        (m_short m) (m_verbose m) (m_remark m) (m_file0 m) (m_symbols m) (m_stack m).
-Definition with_orig (m : msg) : msg :=
-  mkMsg (m_id m) (m_guideline m) (m_classification m) (m_sev m) (m_cwe m) (m_hash m) (m_inconclusive m)
-        (m_short m) (m_verbose m) (m_remark m) (m_file0 m) (m_symbols m) [mkLoc (L "q.c") (L "./q.c") 5 1 []].
-Definition with_guideline (m : msg) : msg :=
-  mkMsg (m_id m) (L "1.1") (L "Required") (m_sev m) (m_cwe m) (m_hash m) (m_inconclusive m)
-        (m_short m) (m_verbose m) (m_remark m) (m_file0 m) (m_symbols m) (m_stack m).
+Definition w_full : msg :=
+  mkMsg (L "id") (L "1.1") (L "Required") SDebug 563 7 true (L "m") (L "m") (L "r") (L "a.c") (L "x")
+        [mkLoc (L "q.c") (L "./q.c") 5 1 (L "i")].
 
-Example C26_rng_plain_inhabited : rng_plain w_plain /\ error_conforms rng_schema_gen (error_tree w_plain) = true.
-Proof.
-  split; [|vm_compute; reflexivity].
-  repeat split; try reflexivity; [repeat constructor | cbn; auto 10].
-Qed.
-
-(* the schema does not know what toXML writes for a remark comment, a #line/unsimplified
-   path (origfile), a debug message, a coding-standard report (guideline/classification) *)
-Theorem C26_xml_rng_refuted :
-  error_conforms rng_schema_gen (error_tree (with_remark w_plain)) = false /\
-  error_conforms rng_schema_gen (error_tree (with_orig w_plain)) = false /\
-  error_conforms rng_schema_gen (error_tree (with_sev SDebug w_plain)) = false /\
-  error_conforms rng_schema_gen (error_tree (with_guideline w_plain)) = false.
-Proof. vm_compute. repeat split. Qed.
-Print Assumptions C26_xml_rng_refuted.
+Example C26_reportable_inhabited : reportable w_full /\ error_conforms rng_schema_gen (error_tree w_full) = true.
+Proof. split; [split; discriminate | vm_compute; reflexivity]. Qed.
 
 (* fixInvalidChars leaves printable ASCII only *)
 Theorem C26_fix_invalid_chars_printable s : bytes s -> Forall (fun x => is_print x = true) (fix_invalid_chars s).
